@@ -207,19 +207,35 @@ static int peg_wf_instr(const uint32_t *bc, const uint8_t *isstart, uint32_t i, 
       return 0;
   }
 }
-static int peg_wf(const uint32_t *bc, const uint8_t *isstart, uint32_t clen) {
-  for (uint32_t i = 0; i < PEG_BLEN; i++) {
-    if (isstart[i] && !peg_wf_instr(bc, isstart, i, clen)) return 0;
+/* wf_peg along the chain of rules the real body can reach WITHOUT a call: the top rule and its tail-call targets
+ * (choice/sequence: last element; if/if-not: second rule; accumulate: sub-rule), PEG_TAILDEPTH deep. This is weaker than
+ * (implied by) "every instruction start is well-formed"; all other rules are only handed to the contract stub, which
+ * ASSERTS that they are instruction starts. */
+#ifndef PEG_TAILDEPTH
+#define PEG_TAILDEPTH 3
+#endif
+#define BCAT(k) ((k) < PEG_BLEN ? bc[(k)] : 0u)
+static uint32_t peg_tail_target(const uint32_t *bc, uint32_t i) {
+  switch (bc[i]) {
+    case RULE_CHOICE: case RULE_SEQUENCE: { uint32_t len = BCAT(i + 1); return (len && len < PEG_BLEN) ? BCAT(i + 1 + len) : PEG_BLEN; }
+    case RULE_IF: case RULE_IFNOT: return BCAT(i + 2);
+    case RULE_ACCUMULATE: return BCAT(i + 1);
+    default: return PEG_BLEN;
+  }
+}
+static int peg_wf_chain(const uint32_t *bc, const uint8_t *isstart, uint32_t clen, uint32_t r0) {
+  uint32_t t = r0;
+  for (int d = 0; d <= PEG_TAILDEPTH; d++) {
+    if (t >= PEG_BLEN) break;
+    if (!isstart[t] || !peg_wf_instr(bc, isstart, t, clen)) return 0;
+#ifdef PEG_TAIL_NOT_OP
+    /* rules reached in tail position are not PEG_TAIL_NOT_OP (that opcode has its own unit) */
+    if (d > 0 && bc[t] == PEG_TAIL_NOT_OP) return 0;
+#endif
+    t = peg_tail_target(bc, t);
   }
   return 1;
 }
-
-#ifdef PEG_TAIL_NOT_OP
-static int peg_tailnot(const uint32_t *bc, const uint8_t *isstart, uint32_t r0) {
-  for (uint32_t i = 0; i < PEG_BLEN; i++) if (i != r0 && isstart[i] && bc[i] == PEG_TAIL_NOT_OP) return 0;
-  return 1;
-}
-#endif
 static int peg_inv_consts(const Janet *consts) {
   for (int i = 0; i < PEG_NCONST; i++)
     if (janet_checktype(consts[i], JANET_CFUNCTION) && consts[i].as.pointer != (void *) h_cfun) return 0;
@@ -241,17 +257,13 @@ void h_peg_rule(void) {
 
   /* grammar: symbolic well-formed bytecode, symbolic top rule */
   uint32_t clen = nd_u32(); __CPROVER_assume(clen <= PEG_NCONST);
-  __CPROVER_assume(peg_wf(bc, isstart, clen));
   uint32_t r0 = nd_u32(); __CPROVER_assume(r0 < PEG_BLEN && isstart[r0]);
+  __CPROVER_assume(peg_wf_chain(bc, isstart, clen, r0));
 #ifdef PEG_OP
   __CPROVER_assume(bc[r0] == PEG_OP);
 #endif
 #ifdef PEG_NOT_OP
   __CPROVER_assume(bc[r0] != PEG_NOT_OP);
-#endif
-#ifdef PEG_TAIL_NOT_OP
-  /* rules reachable in tail position are not PEG_TAIL_NOT_OP (that opcode has its own unit) */
-  __CPROVER_assume(peg_tailnot(bc, isstart, r0));
 #endif
   /* constants: C functions among them are callable with (argc, argv) */
   __CPROVER_assume(peg_inv_consts(consts));
